@@ -379,6 +379,7 @@ class Judge:
         self.res = res
         self.wit = witness
         self.bad = False
+        self.end = None
 
     def violate(self, key, why, **more):
         if self.bad:
@@ -526,9 +527,13 @@ class Judge:
             except Incomplete:
                 return self.violate("C19/reply-shape/" + vkey(verb), "output ends inside the reply to %s" % cmdtxt,
                                     command=cmdtxt, tail=core.hx(out[max(0, pos - 40):][-300:]))
-        if pos != len(out):
-            return self.violate("C19/reply-shape/trailing-bytes", "output continues after the last reply",
-                                tail=core.hx(out[pos:pos + 200]))
+        self.end = pos
+
+    def trailing(self, out):
+        """after the effects were judged: nothing may follow the last reply"""
+        if not self.bad and self.end is not None and self.end != len(out):
+            self.violate("C19/reply-shape/trailing-bytes", "output continues after the last reply",
+                         tail=core.hx(out[self.end:self.end + 200]))
 
     def final_state(self, sess, md, had_quit):
         remain, gone = sess.final()
@@ -570,6 +575,9 @@ def process_problem(res, prog, rc, err, wit):
     if "Sanitizer" in e or "runtime error" in e or (rc is not None and rc < 0):
         w = dict(wit)
         w["stderr_tail"] = e[-2000:]
+        site = hrun.sanitizer_site(e)
+        if site.endswith("@qmail-pop3d.c"):      # qmail-popup's descriptor 2 is inherited by the chained server
+            prog = "qmail-pop3d"
         res.violate("C20/sanitizer/%s/%s" % (prog, hrun.sanitizer_site(e)), "%s: sanitizer report or fatal signal (rc=%s)" % (prog, rc), w)
         return True
     return False
@@ -654,6 +662,7 @@ def run_pop3d_session(box, res, msgs, cmds, had_quit, vanish, wit):
     if judge.bad:
         return
     judge.final_state(sess, box.md, had_quit)
+    judge.trailing(out)
     if judge.bad:
         return
     if msgs and len(cmds) > 2:
@@ -926,6 +935,7 @@ def case_popup(box, res, i):
     j.transcript(sess, tail_cmds, out, pos)
     if not j.bad:
         j.final_state(sess, box.md, True)
+        j.trailing(out)
     if not j.bad:
         res.counters.inc("popup_chained_sessions_agreeing")
 
@@ -944,8 +954,8 @@ def worker(bdir, kind, lo, hi):
 def main(tier):
     t0 = time.time()
     b = build.vbuild("asan")
-    nsess = core.scaled(2000 if tier == "quick" else 60000)
-    npop = core.scaled(320 if tier == "quick" else 8000)
+    nsess = core.scaled(3000 if tier == "quick" else 60000)
+    npop = core.scaled(400 if tier == "quick" else 8000)
     ndir = len(directed_cases())
     jobs = []
     per = max(10, nsess // (core.JOBS * 4))
